@@ -36,7 +36,7 @@ def boundary_case(rng, cid, ps, delta, with_delete):
 class C16(Prop):
     pid = "C16"
     pkg = "z"
-    quick_n = 150
+    quick_n = 110
     thorough_n = 2500
     model_files = ["Tree/Node.v", "Tree/Tree.v", "Tree/Reopen.v"]
     rule = ("persistent trees on temp files, page sizes 80..4096; random Set/DeleteBelow/IterateKV histories (the C10 "
